@@ -433,6 +433,103 @@ def gen_pmw(tier, rng):
     return out
 
 
+def growth_page_counts(tier):
+    """page counts around every re-allocation of the column index builder: its initial capacity is read from
+    src/metadata/page_index.c (tools/gen.d/stats.py), it doubles from there"""
+    import importlib.util
+    f = vlib.VERIF / "tools" / "gen.d" / "stats.py"
+    spec = importlib.util.spec_from_file_location("gen_stats_for_c16", f)
+    mod = importlib.util.module_from_spec(spec)
+    spec.loader.exec_module(mod)
+    c0 = max(1, mod.column_index_initial_capacity(vlib.REPO))
+    counts, c = set(), c0
+    top = 140 if tier == "quick" else 600
+    while c - 1 <= top:
+        counts.update(x for x in (c - 1, c, c + 1, c + 2) if 1 <= x <= top + 2)
+        c *= 2
+    counts.update([1, 2, 3])
+    if tier != "quick":
+        counts.update([200, 300, 400])
+    return sorted(counts), c0
+
+
+def gen_pmh(tier, rng):
+    """long add_page histories: page counts around every growth step of the builder's arrays, EVERY page probed with every
+    query after the last add (pages recorded before a re-allocation must keep their bounds), all physical types"""
+    out = []
+    counts, c0 = growth_page_counts(tier)
+    types = [INT32, INT64, FLOAT, DOUBLE, BYTE_ARRAY, FLBA, INT96]
+    reps = 1 if tier == "quick" else 3
+    for n in counts:
+        for t in types:
+            if tier == "quick" and n > 70 and t not in (INT32, DOUBLE, BYTE_ARRAY) and rng.random() < 0.5:
+                continue
+            for _ in range(reps):
+                flen = 3 if t == FLBA else 0
+                pages, allv = [], []
+                for i in range(n):
+                    if rng.random() < 0.06:
+                        pages.append("%d/-/-/1/-" % rng.choice([1, 4]))          # a null page
+                        continue
+                    data = [rand_value(t, rng, flen) for _ in range(rng.choice([1, 1, 2, 3]))]
+                    if t == BYTE_ARRAY:
+                        data = [v[:24] or b"a" for v in data]
+                    mn, mx = bounds(t, data)
+                    r = rng.random()
+                    smn = None if (mn is None or r < 0.05) else mn
+                    smx = None if (mx is None or 0.05 <= r < 0.10) else mx
+                    pages.append("%d/%s/%s/0/%s" % (rng.choice([0, 0, 2]), hx(smn), hx(smx), vals_text(data)))
+                    allv += [v for v in data if not is_nan(t, v)]
+                if not allv:
+                    continue
+                w = {INT32: 4, FLOAT: 4, INT64: 8, DOUBLE: 8, INT96: 12}.get(t)
+                qs = []
+                for _ in range(6):
+                    a, b = rng.choice(allv), rng.choice(allv)
+                    if key(t, a) > key(t, b):
+                        a, b = b, a
+                    shape = rng.choice(["lo", "lo", "both", "both", "hi", "point"])
+                    if shape == "point":
+                        b = a
+                    if t == BYTE_ARRAY and shape in ("both",) and len(a) != len(b):
+                        shape = "lo"
+                    if shape == "lo":
+                        qs.append("%s/N" % hx(a))
+                    elif shape == "hi":
+                        qs.append("N/%s" % hx(b))
+                    else:
+                        qs.append("%s/%s" % (hx(a), hx(b)))
+                out.append(("pmh %d %s %s" % (t, ";".join(pages), ";".join(qs)), {"kind": "pmh", "pages": n, "initial_capacity": c0}))
+    return out
+
+
+def gen_pmw_hist(tier, rng):
+    """the same through real pages: many pages written by the page writer, all of them probed after the last add"""
+    out = []
+    counts, c0 = growth_page_counts(tier)
+    counts = [n for n in counts if n <= (70 if tier == "quick" else 300)]
+    for n in counts:
+        for t in ([INT32, DOUBLE, BYTE_ARRAY] if tier == "quick" else [INT32, INT64, FLOAT, DOUBLE, BYTE_ARRAY, FLBA]):
+            flen = 3 if t == FLBA else 0
+            maxdef = rng.choice([0, 1])
+            pool = [rand_value(t, rng, flen or 3) for _ in range(6)]
+            if t == BYTE_ARRAY:
+                pool = [v[:24] or b"b" for v in pool]
+            pages = [page_batches(t, rng, flen or 3, maxdef, pool) for _ in range(n)]
+            allv = [v for pg in pages for v in pg[1] if not is_nan(t, v) and len(v) > 0]
+            if not allv:
+                continue
+            for shape in ("lo", "both"):
+                a, b = rng.choice(allv), rng.choice(allv)
+                if key(t, a) > key(t, b):
+                    a, b = b, a
+                if shape == "both" and t == BYTE_ARRAY and len(a) != len(b):
+                    b = a
+                out.append(("pmw %d %d %d %s all %s %s" % (t, flen, maxdef, ";".join(pg[0] for pg in pages), hx(a), "N" if shape == "lo" else hx(b)),
+                            {"kind": "pmw", "tb": True, "pages": n}))
+    return out
+
+
 def gen_helpers(tier, rng):
     out = []
     k = 10000 if tier == "quick" else 250000
@@ -772,6 +869,22 @@ def judge(line, meta, impl, model):
             want = [i for i, m in enumerate(might) if m][:maxidx]
             if got != want or fk != str(len(want)):
                 out.append(("violation", "filter_row_groups returned %s:%s, the might-match row groups capped at %d are %s" % (fk, got, maxidx, want)))
+    elif kind == "pmh" or (kind == "pmw" and line.split()[5] == "all"):
+        body, _, truth = impl.rpartition(" T=")
+        if model != body and not model.startswith("FAULT"):
+            a, b = kv(body), kv(model)
+            diff = [k for k in sorted(set(a) | set(b)) if a.get(k) != b.get(k)]
+            out.append(("tie", "column-index model and implementation differ in %s (history of %s pages)" % (diff or "status", meta.get("pages"))))
+        got = kv(body).get("m", "")
+        if "addbad=0" not in body and kind == "pmh":
+            out.append(("violation", "carquet_column_index_add_page failed: " + body[:80]))
+        for qi, (mq, tq) in enumerate(zip(got.split("|"), truth.split("|"))):
+            bad = [i for i, (x, y) in enumerate(zip(mq, tq)) if y == "1" and x != "1"]
+            if bad or len(mq) != len(tq):
+                out.append(("violation", "column index with %d pages, query #%d: page(s) %s hold a value inside the query range but "
+                                         "carquet_column_index_page_might_match says no match (asked after the last add_page)"
+                                         % (len(tq), qi, bad[:8])))
+                break
     elif kind == "pmw":
         body, _, truth = impl.rpartition(" T=")
         if model != body and not model.startswith("FAULT"):
@@ -849,7 +962,8 @@ def run(tier):
         if cc:
             run_cases(rep, drv, run_, cc, "corpus", dist)
     for name, gen in (("builder", gen_bld), ("page_writer", gen_pw), ("reader", gen_rd), ("reader_long_stats", gen_rd_long),
-                      ("helpers", gen_helpers), ("page_index_from_pages", gen_pmw)):
+                      ("helpers", gen_helpers), ("page_index_from_pages", gen_pmw), ("page_index_histories", gen_pmh),
+                      ("page_index_histories_from_pages", gen_pmw_hist)):
         cases = gen(tier, rng)
         run_cases(rep, drv, run_, cases, name, dist)
         rep.sample({"op": name, "case": cases[len(cases) // 3][0][:400]})
@@ -889,8 +1003,8 @@ def replay(path):
         for kind, text in res:
             print(kind.upper() + ":", text)
         return 1 if res else 0
-    if meta.get("kind") not in ("bld", "pw", "rd", "cmp", "ovl", "pm", "pmw"):
-        meta = dict(meta, kind={"builder": "bld", "page_writer": "pw", "reader": "rd", "reader_long_stats": "rd", "page_index_from_pages": "pmw"}.get(meta.get("kind"), case.split()[0]))
+    if meta.get("kind") not in ("bld", "pw", "rd", "cmp", "ovl", "pm", "pmw", "pmh"):
+        meta = dict(meta, kind={"builder": "bld", "page_writer": "pw", "reader": "rd", "reader_long_stats": "rd", "page_index_from_pages": "pmw", "page_index_histories": "pmh", "page_index_histories_from_pages": "pmw"}.get(meta.get("kind"), case.split()[0]))
     res = judge(case, meta, out[0], mo[0] if mo else "RUNNER-ERROR none")
     for kind, text in res:
         print(kind.upper() + ":", text)
